@@ -495,6 +495,44 @@ def check_malformed(ctx, jwk, rng):
                 ctx.violation(f"malformed-imported:{jwk['kty']}:{cls_name}", f"malformed JWK ({name}) was imported by {jwk['kty']}Key.import_key", case)
 
 
+def oct_secrets_that_look_like_something(ctx, rng):
+    """a symmetric secret is its octets, whatever they look like (the JSON text of a JWK, a JSON array, armor-like text): the exported k is BASE64URL of exactly
+    those octets and a MAC made with the key is a MAC under those octets"""
+    import hmac
+    import hashlib
+    import warnings
+    j = J.load()
+    secrets_ = [b'{"kty":"oct","k":"c2VjcmV0"}', b' {"kty":"RSA","n":"AA","e":"AQAB"} ', b'{"kty":"EC"}', b"{}", b"[1,2]", b'"text"', b"null", b"-----BEGIN SECRET-----", b"ssh-rsa",
+                b"\x30\x03\x02\x01\x01", b"\xef\xbb\xbf{}", b"eyJhbGciOiJub25lIn0"]
+    for sec in secrets_:
+        for as_ in ("bytes", "str"):
+            for via, f in (("OctKey.import_key", lambda v: j.OctKey.import_key(v)), ("JWKRegistry.import_key(.., 'oct')", lambda v: j.JWKRegistry.import_key(v, "oct"))):
+                try:
+                    v = sec if as_ == "bytes" else sec.decode("utf-8")
+                except UnicodeDecodeError:
+                    continue
+                ctx.ev()
+                with warnings.catch_warnings():
+                    warnings.simplefilter("ignore")
+                    k = call(f, v)
+                ctx.count("oct_lookalike_secrets")
+                ctx.nontrivial(("lookalike", sec, as_, via))
+                case = {"oct_lookalike": True, "secret": sec.hex(), "as": as_, "via": via}
+                if not k.ok:
+                    ctx.open("lookalike-secret-refused")
+                    continue
+                d = call(k.value.as_dict)
+                if not d.ok or d.value.get("k") != b64u_enc(sec):
+                    ctx.violation("oct-secret-reinterpreted", f"{via}({v!r}) exports k={d.value.get('k') if d.ok else d!r}; BASE64URL of the octets is {b64u_enc(sec)!r}", case)
+                    continue
+                if len(sec) >= 4:
+                    t = call(j.jws.serialize_compact, {"alg": "HS256"}, b"x", k.value, algorithms=["HS256"])
+                    if t.ok:
+                        p64, pl, sg = t.value.split(".")
+                        if b64u_dec(sg) != hmac.new(sec, (p64 + "." + pl).encode(), hashlib.sha256).digest():
+                            ctx.violation("oct-secret-reinterpreted:mac", f"HS256 under the key imported from {v!r} is not HMAC-SHA256 under those octets", case)
+
+
 def run_shard(ctx):
     J.load()
     rng = ctx.rng
@@ -502,6 +540,8 @@ def run_shard(ctx):
         import_order_cases(ctx)
     if ctx.shard == 5:
         marker_word_keys(ctx, rng)
+    if ctx.shard == 6:
+        oct_secrets_that_look_like_something(ctx, rng)
     kinds = list(K.KINDS) + list(K.UNUSUAL_RSA)
     if ctx.tier == "thorough":
         kinds += ["RSA:3072"] + (["RSA:4096"] if ctx.shard == 0 else [])
